@@ -4,6 +4,7 @@ import (
 	"fmt"
 	"go/ast"
 	"go/constant"
+	"go/token"
 	"path/filepath"
 	"strings"
 )
@@ -65,5 +66,31 @@ func init() {
 			return true
 		})
 		flag("c18_stream_marker_only_on_success", !deferred && containsCall(tp.funcDecl("Stream", ""), "Close"))
+		// meta handler serveCopyShard: the owner command (store.copyShard) is issued only after the
+		// CopyShard RPC has returned without error - the model's copy_shard has this order, and
+		// failed_copy_not_advertised depends on it: both calls present, the RPC first, and a
+		// return between them (the error exit of the RPC)
+		mp := loadPkg(filepath.Join(*repo, "services", "meta"))
+		var posRPC, posOwner token.Pos
+		retBetween := false
+		sc := mp.funcDecl("serveCopyShard", "handler")
+		ast.Inspect(sc, func(n ast.Node) bool {
+			if c, ok := n.(*ast.CallExpr); ok {
+				switch c17ExprString(c.Fun) {
+				case "h.rpcClient.CopyShard":
+					posRPC = c.Pos()
+				case "h.store.copyShard":
+					posOwner = c.Pos()
+				}
+			}
+			return true
+		})
+		ast.Inspect(sc, func(n ast.Node) bool {
+			if r, ok := n.(*ast.ReturnStmt); ok && posRPC != 0 && r.Pos() > posRPC && r.Pos() < posOwner {
+				retBetween = true
+			}
+			return true
+		})
+		flag("c18_owner_added_after_copy", posRPC != 0 && posOwner != 0 && posRPC < posOwner && retBetween)
 	})
 }
